@@ -14,15 +14,15 @@ ALL = None
 
 CONFIG = {
     'C01': dict(profile=['structure', 'mirror'], keys=STRUCT, events=False,
-                oracles=[('Inv1', ir_oracles.inv1)], quick=(260, 45), thorough=(6000, 60)),
+                oracles=[('Inv1', ir_oracles.inv1)], quick=(700, 45), thorough=(6000, 60)),
     'C02': dict(profile=['mirror', 'structure'], keys=STRUCT, events=False,
-                oracles=[('Inv2', ir_oracles.inv2)], quick=(260, 45), thorough=(6000, 60)),
+                oracles=[('Inv2', ir_oracles.inv2)], quick=(700, 45), thorough=(6000, 60)),
     'C10': dict(profile=['naming'], keys=NAMING, events=False,
-                oracles=[('NsInv', ir_oracles.ns_inv)], quick=(220, 45), thorough=(5000, 60)),
+                oracles=[('NsInv', ir_oracles.ns_inv)], quick=(500, 45), thorough=(5000, 60)),
     'C14': dict(profile=['structure', 'naming', 'mirror'], keys=ALL, events=False,
-                oracles=[], quick=(300, 45), thorough=(6000, 60)),
+                oracles=[], quick=(600, 45), thorough=(6000, 60)),
     'C19': dict(profile=['structure', 'mirror', 'naming'], keys=ALL, events=True,
-                oracles=[], quick=(300, 45), thorough=(6000, 60)),
+                oracles=[], quick=(600, 45), thorough=(6000, 60)),
 }
 
 
